@@ -288,7 +288,11 @@ def interesting_values(rng, bits, L):
     return [v & m for v in pool]
 
 
-def make_prog(spec, rng, pool, n_instr, with_loop=False, fault_bias=0.3):
+def make_prog(spec, rng, pool, n_instr, with_loop=False, fault_bias=0.3, mode=None):
+    """mode: None (registers mostly inside the rw page, fault_bias of them on interesting values),
+    "straddle" (every pointer a few bytes before a page boundary: rw->ro, ro->hole, hole->rw2),
+    "split" (every register independently on a valid rw address, a read-only address or a hole:
+    instructions that read one place and write another get one good and one bad operand)"""
     p = Prog(spec)
     L = spec.L
     CODE, DATA_RW, DATA_RO, DATA_RW2 = L.CODE, L.DATA_RW, L.DATA_RO, L.DATA_RW2
@@ -333,9 +337,29 @@ def make_prog(spec, rng, pool, n_instr, with_loop=False, fault_bias=0.3):
         else:
             p.regs[r] = (DATA_RW + rng.choice([0x100, 0x200, 0x400, 0x800, 0x7fc, 0x104, 0x10c])) \
                 if rng.random() < 0.7 else rng.choice([0, 1, 2, 3, 4, 5, 8])
+    m = (1 << bits) - 1
+    if mode == "straddle":
+        ends = [DATA_RW + PAGE, DATA_RO + PAGE, DATA_RW2]
+        for r in spec.gprs:
+            p.regs[r] = (rng.choice(ends) - rng.choice([1, 1, 2, 3, 3, 5, 7])) & m
+    elif mode == "split":
+        for r in spec.gprs:
+            k = rng.random()
+            if k < 0.45:
+                p.regs[r] = (DATA_RW + rng.choice([0x100, 0x200, 0x400, 0x404, 0x800])) & m
+            elif k < 0.7:
+                p.regs[r] = (L.HOLE + rng.choice([0x10, 0x100, 0x800])) & m
+            elif k < 0.9:
+                p.regs[r] = (DATA_RO + rng.choice([0x10, 0x100, 0x800])) & m
+            else:
+                p.regs[r] = rng.choice([0, 1, 2, 4, 8])
     for f in spec.flags:
         p.regs[f] = rng.getrandbits(1)
     p.regs[spec.sp_name] = DATA_RW + 0x800 + rng.choice([0, 4, 8, 0x7f8 - 0x800 + 0x800])
+    if mode == "straddle" and rng.random() < 0.5:
+        p.regs[spec.sp_name] = (DATA_RW + PAGE + rng.choice([1, 2, 3, 6])) & m   # pushes straddle down into rw
+    if mode == "split" and rng.random() < 0.3:
+        p.regs[spec.sp_name] = (L.HOLE + 0x800) & m
     if p.loop is not None:
         p.regs[spec.counter] = rng.choice([1, 2, 3, 3, 4, 6])
     fill = bytes(rng.getrandbits(8) for _ in range(PAGE))
